@@ -52,8 +52,7 @@ def _is_test_outcome(expr, member=None):
   return qual in ('test_record', 'htf_test_record')
 
 
-def r1_who(report, repo):
-  rule = 'C01-R1'
+def r1_who(report, repo, rule='C01-R1'):
   report.rule(rule, 'T-WHO: Outcome.PASS is produced only by '
               'TestState.finalize_normally via _finalize; _finalize is called '
               'only by the three finalisers; the record outcome is written only '
@@ -346,6 +345,40 @@ def r3_from_outcome(report, repo):
       'is_terminal no longer covers %s: such an outcome does not stop the '
       'test and is never finalised as ERROR/TIMEOUT/FAIL (the run can end '
       'PASS)' % sorted({'raised', 'timeout', 'stop'} - kinds))
+  # the predicates is_terminal is built from: an exception result is an
+  # ExceptionInfo or the ThreadTerminationError of a killed phase (abort /
+  # timeout kill); a timeout is the None result.
+  def isinstance_classes(q):
+    fn = repo.func(PE, q)
+    rs = [n for n in walk_no_nested(fn.node) if isinstance(n, ast.Return)]
+    if len(rs) != 1 or not (isinstance(rs[0].value, ast.Call) and core.is_name(
+        rs[0].value.func, 'isinstance') and len(rs[0].value.args) == 2 and
+                            dotted(rs[0].value.args[0]) == 'self.phase_result'):
+      return fn, None
+    t = rs[0].value.args[1]
+    return fn, {(dotted(e) or norm(e)).split('.')[-1]
+                for e in (t.elts if isinstance(t, ast.Tuple) else [t])}
+  rf, rcls = isinstance_classes('PhaseExecutionOutcome.raised_exception')
+  aborted_covered = any(dotted(dj) == 'self.is_aborted' for dj in disj) or (
+      rcls is not None and 'ThreadTerminationError' in rcls)
+  report.check(rcls is not None and 'ExceptionInfo' in rcls and
+               aborted_covered, rule,
+               'PhaseExecutionOutcome.raised_exception', 'raised-classes',
+               rf.node, 'raised_exception / is_terminal cover ExceptionInfo '
+               'and the ThreadTerminationError of a killed phase',
+               'an ExceptionInfo or ThreadTerminationError phase result is no '
+               'longer terminal (classes recognised: %s): a killed/raising '
+               'phase does not stop the test and the ladder finalises PASS' %
+               (sorted(rcls) if rcls is not None else 'not an isinstance test'))
+  tf = repo.func(PE, 'PhaseExecutionOutcome.is_timeout')
+  trs = [n for n in walk_no_nested(tf.node) if isinstance(n, ast.Return)]
+  ok = len(trs) == 1 and isinstance(trs[0].value, ast.Compare) and isinstance(
+      trs[0].value.ops[0], ast.Is) and dotted(trs[0].value.left) == \
+      'self.phase_result' and isinstance(
+          trs[0].value.comparators[0], ast.Constant) and \
+      trs[0].value.comparators[0].value is None
+  report.check(ok, rule, tf.qualname, 'timeout-is-none', tf.node,
+               'is_timeout is `phase_result is None`')
   report.check(kinds <= ladder, rule, 'PhaseExecutionOutcome.is_terminal',
                'is_terminal-kinds', it.node,
                'every terminal kind %s has a row in the finalisation ladder' %
@@ -720,8 +753,7 @@ def r7_last_record(report, repo, rule='C01-R7'):
   report.expect_instances(rule, n, 2, 'positional last-record reads')
 
 
-def r8_execute_returns_pass(report, repo):
-  rule = 'C01-R8'
+def r8_execute_returns_pass(report, repo, rule='C01-R8'):
   report.rule(rule, 'T-AGREE: Test.execute returns <final record>.outcome == '
               'Outcome.PASS')
   f = repo.func(TD, 'Test.execute')
@@ -801,3 +833,7 @@ def run(report, repo):
   # UNSET measurements pass only while allow_unset_measurements (shared C06-R7)
   from sa.rules import c06  # pylint: disable=g-import-not-at-top
   report.guard(c06.r7_measurements_pass, report, repo, rule='C01-R11')
+  # a failure diagnosis gives FAIL and branches/checkpoints see every
+  # diagnosis: each diagnosis reaches the store and the record (shared C02-R7d)
+  from sa.rules import c02  # pylint: disable=g-import-not-at-top
+  report.guard(c02.r7_diagnoses, report, repo, rule='C01-R12')
